@@ -21,6 +21,50 @@ pub fn run(ctx: &Ctx) -> u64 {
             Ok(Err(_)) => {}
         }
     }
+    // CPC: Java/C++ write the result of an EMPTY union as preInts 2 with only the COMPRESSED flag
+    // (no HIP flag): an empty sketch that is MERGED. This library writes its own empty sketches
+    // with the HIP flag, so this variant only ever comes from outside. The restored sketch must
+    // be empty and merged, re-serialize to the same 8 bytes, and after updates still be a merged
+    // sketch (no HIP section; the estimate is the ICON estimate of its coupon count).
+    for lg_k in [4u8, 10, 12, 21, 26] {
+        let mut img = vec![2u8, 1, 16, lg_k, 0, 2];
+        img.extend(crate::spec_misc::seed_hash(9001).to_le_bytes());
+        n += 1;
+        let rp = || json!({"kind":"image","family":"cpc","variant":"empty merged (Java/C++ empty union result)","image_hex":crate::common::hex(&img)});
+        match catch(|| datasketches::cpc::CpcSketch::deserialize(&img)) {
+            Err(p) => {
+                ctx.violation(&format!("panic|{}", p.site_key()), &format!("empty merged CPC image panicked: {}", p.message), rp());
+            }
+            Ok(Err(e)) => {
+                ctx.violation("cpc.empty_merged.rejected", &format!("valid image rejected: {e}"), rp());
+            }
+            Ok(Ok(mut d)) => {
+                let st = d.verif_state();
+                if !d.is_empty() || d.num_coupons() != 0 || d.lg_k() != lg_k {
+                    ctx.violation("cpc.empty_merged.state", &format!("restored as empty={} coupons={} lg_k={}", d.is_empty(), d.num_coupons(), d.lg_k()), rp());
+                } else if !st.merge_flag {
+                    ctx.violation("cpc.empty_merged.merge_flag", "the merged flag of the image is lost (the sketch would answer with HIP and write a HIP section)", rp());
+                } else if d.serialize() != img {
+                    ctx.violation("cpc.empty_merged.reserialize", &format!("re-serialized as {}", crate::common::hex(&d.serialize())), rp());
+                } else if lg_k <= 12 {
+                    for i in 0..(40u64 << lg_k.min(8)) {
+                        d.update(i);
+                    }
+                    let after = d.serialize();
+                    let mut fresh = datasketches::cpc::CpcUnion::new(lg_k);
+                    let mut same = datasketches::cpc::CpcSketch::new(lg_k);
+                    for i in 0..(40u64 << lg_k.min(8)) {
+                        same.update(i);
+                    }
+                    fresh.update(&same);
+                    let want = fresh.to_sketch();
+                    if after.len() < 6 || after[5] & 4 != 0 || d.estimate().to_bits() != want.estimate().to_bits() {
+                        ctx.violation("cpc.empty_merged.continuation", &format!("after updates the sketch is no longer a merged sketch (flags {:#x}, estimate {} vs the merged estimate {})", after.get(5).copied().unwrap_or(0), d.estimate(), want.estimate()), rp());
+                    }
+                }
+            }
+        }
+    }
     n += tdigest_variants(ctx);
     n
 }
